@@ -91,7 +91,7 @@ PARSE_PROPS = {
              "in 4 layouts (minimal separators; single spaces; wild: Unicode whitespace, CRLF, line/block comments with arbitrary text; safe); "
              "the tree must mirror the abstract document (names, kinds, structure, directions, flags, codes, values, annotations) in "
              "every layout",
-             runs=[("parse", "P", ["corr_parse_shape"])], py_oracle=o_C02, rerender=gens.rerender,
+             runs=[("parse", "P", ["corr_parse_shape"])], py_oracle=o_C02, rerender=gens.rerender, post=gens.post_C02, x_checks=["layout_tokens"],
              trusted_base=TB_PARSE, assumptions=ASSUME_PARSE + ["the abstract-document printer and mirror oracle (lib/gen.py, lib/oracles.py) state what 'mirrors' means"],
              distribution=dist_parse),
     "C03": P(["Model/LrDriver.v", "Proofs/Totality.v", "Proofs/Master.v", "Proofs/RegexLang.v", "Proofs/LexerSafe.v", "Proofs/Keywords.v",
